@@ -227,7 +227,7 @@ func (e *Engine) Setup(tier string) error {
 	if err != nil {
 		return err
 	}
-	e.tmp, err = os.MkdirTemp("", "verif-c28.")
+	e.tmp, err = os.MkdirTemp(sim.ScratchParent(), "verif-c28.")
 	return err
 }
 
